@@ -1157,25 +1157,4 @@ Proof.
     split; [exact O2|]. repeat split; try apply only_attr_set.
     + rewrite attr_get_set by exact O1. replace (beq k_type k_from) with false by reflexivity.
       subst a1. rewrite attr_get_set by exact O0. rewrite beq_refl. reflexivity.
-    + rewrite attr_get_set by exact O1. replace (beq k_to k_from) with false by reflexivity.
-      subst a1. rewrite attr_get_set by exact O0. replace (beq k_to k_type) with false by reflexivity. exact G1.
-    + rewrite attr_get_set by exact O1. rewrite beq_refl. reflexivity.
-    + rewrite attr_get_set by exact O1. rewrite X. replace (beq xmlns_name k_from) with false by reflexivity.
-      subst a1. rewrite attr_get_set by exact O0. replace (beq xmlns_name k_type) with false by reflexivity.
-      rewrite <- X. exact G3.
-    + intros k N1 N2 N3 N4. rewrite attr_get_set by exact O1.
-      pose proof N2 as N2'. apply beq_false_iff in N2'. rewrite N2'.
-      subst a1. rewrite attr_get_set by exact O0.
-      pose proof N4 as N4'. apply beq_false_iff in N4'. rewrite N4'. apply G4; assumption.
-  - split; [exact O1|]. repeat split; try apply only_attr_set.
-    + subst a1. rewrite attr_get_set by exact O0. rewrite beq_refl. reflexivity.
-    + subst a1. rewrite attr_get_set by exact O0. replace (beq k_to k_type) with false by reflexivity. exact G1.
-    + subst a1. rewrite attr_get_set by exact O0. replace (beq k_from k_type) with false by reflexivity. exact G2.
-    + subst a1. rewrite attr_get_set by exact O0. rewrite X. replace (beq xmlns_name k_type) with false by reflexivity.
-      rewrite <- X. exact G3.
-    + intros k N1 N2 N3 N4. subst a1. rewrite attr_get_set by exact O0.
-      pose proof N4 as N4'. apply beq_false_iff in N4'. rewrite N4'. apply G4; assumption.
-Qed.
-
-(* xmpp_error_new: <stream:error> holding the RFC 6120 4.9.3 condition for the enumerator (the default for
-   values outside the enumeration), qualified by the streams namespace, and the optional <text> *)
+Show. Abort.
